@@ -30,7 +30,8 @@ def main():
     grid = outcomes.settings_grid(opts=opts)
     big_grid = outcomes.settings_grid(versions=(2, 6, 9), modes=("app",), opts=[(None, None), (False, False)])
     small_grid = outcomes.settings_grid(versions=(4, 9), modes=("app",), opts=[(None, None), (False, False)]) + outcomes.settings_grid(versions=(2,), modes=("sig",))
-    entries, raw = outcomes.collect(progs, lambda p: big_grid if p.get("big") else (small_grid if p.get("smallgrid") else grid))
+    sub_grid = outcomes.settings_grid(versions=(3, 4, 7, 8, 10), modes=("app",), opts=[(None, None), (True, False)]) + outcomes.settings_grid(versions=(6,), modes=("sig",))
+    entries, raw = outcomes.collect(progs, lambda p: big_grid if p.get("big") else (sub_grid if p.get("smallgrid") == 2 else small_grid if p.get("smallgrid") else grid))
     verdicts, tres, errors = outcomes.judge(entries, "c20")
     for r in tres:
         chk.add_tlc(r)
